@@ -106,6 +106,21 @@ static void freeze_boundary(const std::string &dir) {
     char name[64]; snprintf(name, sizeof name, "bnd_seqmesh_%u_%s.drc", n, raw ? "cc" : "direct"); std::ofstream f2(dir + "/" + name, std::ios::binary); f2.write(eb.data(), eb.size()); f2.close();
     std::vector<uint8_t> b(eb.data(), eb.data() + eb.size()); printf("%s %s\n", name, decode_digest(b).c_str());
   }
+  // tall thin triangles with integer positions and quantized tex coords, Edgebreaker speed 0 (portable tex-coord prediction): the
+  // predictor takes IntSqrt of |CX|^2 * |PN|^2 = (2^j + 1)^2 - 1, i.e. of numbers >= 2^50 directly below a perfect square
+  for (int j : {27, 29}) for (int rot = 0; rot < 6; rot++) for (int qt : {30, 16}) {
+    TriangleSoupMeshBuilder mb; mb.Start(2); const int pos = mb.AddAttribute(GeometryAttribute::POSITION, 3, DT_INT32); const int tex = mb.AddAttribute(GeometryAttribute::TEX_COORD, 2, DT_FLOAT32);
+    int32_t P[3][3] = {{0, 0, 0}, {1, 0, 0}, {0, 1 << ((j + 1) / 2), 1 << j}}; const float u = 1.0f / (float)(1u << std::min(qt, 30));
+    float T[3][2] = {{0.f, 0.5f + 1.0f / 1048576.0f}, {4 * u, 0.5f + 1.0f / 1048576.0f}, {0.f, 1000 * u}};
+    int o[3] = {rot % 3, (rot + 1) % 3, (rot + 2) % 3}; if (rot >= 3) std::swap(o[1], o[2]);
+    mb.SetAttributeValuesForFace(pos, FaceIndex(0), P[o[0]], P[o[1]], P[o[2]]); mb.SetAttributeValuesForFace(tex, FaceIndex(0), T[o[0]], T[o[1]], T[o[2]]);
+    int32_t P2[3][3] = {{10, 10, 10}, {11, 10, 10}, {10, 11, 10}}; float T2[3][2] = {{0.f, 0.f}, {1.f, 1.f}, {1.f, 0.f}};   // pins the tex-coord range to [0,1]
+    mb.SetAttributeValuesForFace(pos, FaceIndex(1), P2[0], P2[1], P2[2]); mb.SetAttributeValuesForFace(tex, FaceIndex(1), T2[0], T2[1], T2[2]);
+    auto m = mb.Finalize(); if (!m) continue;
+    Encoder enc; enc.SetSpeedOptions(3, 3); enc.SetAttributeQuantization(GeometryAttribute::TEX_COORD, qt);
+    EncoderBuffer eb; if (!enc.EncodeMeshToBuffer(*m, &eb).ok()) continue;
+    char name[64]; snprintf(name, sizeof name, "bnd_texpred_j%d_r%d_q%d.drc", j, rot, qt); std::ofstream f3(dir + "/" + name, std::ios::binary); f3.write(eb.data(), eb.size()); f3.close();
+    std::vector<uint8_t> b(eb.data(), eb.data() + eb.size()); printf("%s %s\n", name, decode_digest(b).c_str()); }
   // raw (not entropy-coded) integer values occupy 1 + msb/8 bytes each: one stream per width 1..4 and per method
   for (int q : {7, 12, 20, 28}) for (int mesh = 0; mesh < 2; mesh++) {
     Mesh m; const int n = 14; m.set_num_points(n); GeometryAttribute ga; ga.Init(GeometryAttribute::POSITION, nullptr, 3, DT_FLOAT32, false, 12, 0); int id = m.AddAttribute(ga, true, n);
